@@ -8,7 +8,9 @@ drv_spec ops of the published format (C19):
   spec const <NAME>                   published value of a named constant
   spec frame <0|1> <data|-> <z|->     the frame a sender emits for data (z = what its zlib produced)
   spec recv <stream> <inflated|-|!>   Channel.recv on the stream (inflated = what zlib returns, ! = zlib.error)
-  spec msg <val>                      read a decoded payload as a message: kind + its published encoding
+  spec msg <val>                      read a decoded payload as a message: kind + its published encoding + whether
+                                      the request arguments / dumped exception have the published layout
+  spec reply <handler> <val>          does a boxed reply value have the shape published for that handler
 Hex strings; `-` is the empty byte string.
 -/
 namespace Rpyc.Drv
@@ -47,10 +49,16 @@ def specOp : List String → String
   | "msg" :: toks => match parseValLine toks with
     | some v => match Msg.ofVal? v with
       | some m => (match m.wire with
-        | .ok bs => "ok " ++ m.kind ++ " " ++ toHex bs
+        | .ok bs => "ok " ++ m.kind ++ " " ++ toHex bs ++ (if m.conforms then " layout-ok" else " layout-BAD")
         | .error e => "err " ++ e.name)
       | none => "err malformed"
     | none => "bad-op"
+  | "reply" :: h :: toks =>
+    match parseNatChars h.toList, parseValLine toks with
+    | some handler, some v => (match Boxed.ofVal? (valSize v + 1) v with
+      | some b => if replyConforms handler b then "ok layout-ok" else "ok layout-BAD"
+      | none => "err malformed")
+    | _, _ => "bad-op"
   | _ => "bad-op"
 
 end Rpyc.Drv
